@@ -4,6 +4,10 @@ NOTES = ("All checks go through ./check <ID>: real sources of /repo's working tr
          "harness is dual-mode); 2 undecided/infrastructure (never a violation). See DESIGN.md.")
 TODO = "contracts for this property are not built yet in this revision (see DESIGN.md section 5 for the plan); not claimed"
 CHECKS = {
+ "C12": dict(category="other", design_ref="DESIGN.md section 5, C12",
+   technique="CBMC contract on the loop-free date validators (all inputs, SAT / z3)",
+   text="Partial: the YYMMDD / (y,m,d) date validators are proved equal to the Gregorian rule plus 'six decimal digits' for every input (complete). The parameter, key, primality and irreducibility validators named by the property are NOT decided by this check: their verdicts are number theory (modular exponentiation, polynomial arithmetic) outside every installed back end; they are listed under not_covered in the evidence.",
+   note="Only the date conjunct of C12 is decided. A defect in bign/g12s/stb99/dstu/pfok/bels validators or in pri.c/pp irreducibility would not be noticed by this check."),
  "C08": dict(category="other", design_ref="DESIGN.md section 5, C08",
    technique="CBMC contracts over exactly-sized symbolic-length inputs: totality/bounds postconditions, decode->encode and encode->decode lemma harnesses on the real der.c (included textually for its static T/L codecs)",
    text="For every DER decoder of der.c and ALL inputs of length 0..CMAX (count symbolic, contents symbolic): no access outside the input or the probed output size, result SIZE_MAX or <= count, accepted input re-encodes to the accepted octets, encoders are inverted by decoders. The T and L codecs read at most 13 octets, so their groups are complete (Pc); the typed decoders are bounded by CMAX (10..14 octets). OID decimal round-trip obligations are attempted only (native search stands in).",
@@ -23,7 +27,7 @@ CHECKS = {
 }
 NOT_APPLICABLE = {
  "C01": TODO, "C02": TODO, "C03": TODO, "C04": TODO, "C07": TODO, "C09": TODO,
- "C10": TODO, "C11": TODO, "C12": TODO, "C15": TODO, "C16": TODO, "C17": TODO, "C19": TODO,
+ "C10": TODO, "C11": TODO,  "C15": TODO, "C16": TODO, "C17": TODO, "C19": TODO,
  "C06": "EC group law / scalar multiplication: algebraic identities over GF(p)/GF(2^m) through function-pointer field objects; every query contains modular inversion/multiplication facts no installed back end decides (measured: N>=2 limb products time out); exhaustive small curves are enumeration, not contracts",
  "C13": "bels threshold recovery is CRT over GF(2)[x] with extended GCD; no quantifier-free or SMT-decidable contract states 'any t shares recover the secret'",
  "C18": "quantifier is over thread schedules; CBMC's contract instrumentation (--dfcc) is sequential and mtCallOnce/mtAtomic* are compiler intrinsics; bounded thread exploration would be model checking, a different family",
